@@ -67,3 +67,10 @@ def real_extra(quick, thorough):
 
     return [{"name": "real", "strategy": lambda tier: realpool.real_case(6 if tier == "quick" else 8),
              "examples": {"quick": quick, "thorough": thorough}, "wall_s": 240}]
+
+
+def wide_extra():
+    from . import realpool
+
+    return [{"name": "real_wide", "strategy": lambda tier: realpool.wide_case(),
+             "examples": {"quick": 4, "thorough": 16}, "wall_s": 240}]
